@@ -472,3 +472,88 @@ def fmt_lenset(s):
     if s is None:
         return "unreachable"
     return "{" + ",".join((str(x) if x < 6 else ">=6") for x in sorted(s)) + "}"
+
+
+# ---- loops driven by Iterator::next -----------------------------------------------------------
+ITER_BUILDERS = {"into_iter", "iter", "iter_mut", "enumerate", "zip", "keys", "values", "rev", "chars", "split", "skip", "take", "filter", "filter_map", "map", "peekable", "step_by", "chain"}
+ITER_TRANSPARENT = {"into_iter", "iter", "iter_mut"}
+
+
+class Loop:
+    def __init__(self, fn, bb, node, some_edges, none_edges):
+        self.fn = fn
+        self.bb = bb              # block of the `next` call (loop header in for-loops)
+        self.node = node          # call node of next()
+        self.some_edges = some_edges
+        self.none_edges = none_edges
+        self.iter_ty = node.d["term"].get("self_ty") or ""
+
+    @property
+    def body_entries(self):
+        return [t for (_, t) in self.some_edges]
+
+    def sources(self):
+        """[(root_node, [adaptor names])]: what the iterator was built from"""
+        out = []
+        seen = set()
+
+        def rec(v, adaptors, depth):
+            if id(v) in seen or depth > 40:
+                return
+            seen.add(id(v))
+            if v.kind in ("phi", "mut"):
+                ks = v.kids if v.kind == "phi" else v.kids[:1]
+                for k in ks:
+                    rec(k, adaptors, depth + 1)
+                return
+            if v.kind == "cycle":
+                return
+            if v.kind == "call" and v.d["term"].get("name") in ITER_BUILDERS and v.kids:
+                nm = v.d["term"].get("name")
+                ad = adaptors if nm in ITER_TRANSPARENT else adaptors + [nm]
+                if nm in ("zip", "chain"):
+                    for k in v.kids:
+                        rec(k, ad, depth + 1)
+                else:
+                    rec(v.kids[0], ad, depth + 1)
+                return
+            out.append((peel(v), adaptors))
+
+        rec(self.node.kids[0], [], 0)
+        return out
+
+    def item(self):
+        """node for the yielded item: (next() as Some).0 — built structurally for matching"""
+        return self.node
+
+
+def next_loops(fn):
+    """all `Iterator::next` calls that sit on a CFG cycle"""
+    fv = vals(fn)
+    out = []
+    for b, t in fn.calls():
+        if t.get("name") not in ("next", "next_back") or t.get("trait") not in ("std::iter::Iterator", "std::iter::DoubleEndedIterator"):
+            continue
+        if b not in cfg.reach_strict(fn, b):
+            continue
+        node = fv.call_node(b)
+        g, bad = success_edges(fn, node)
+        out.append(Loop(fn, b, node, g, bad))
+    return out
+
+
+def item_path(v, loop_node):
+    """if v (peeled) is a projection of the item yielded by `loop_node` ((next as Some).0.<path>), return the
+    tuple-field path (Option payload skipped); else None"""
+    v = peel(v)
+    path = []
+    n = v
+    guard = 0
+    while n.kind in ("field", "variant") and guard < 20:
+        guard += 1
+        if n.kind == "field" and n.d.get("adt") != OPTION:
+            path.insert(0, n.d.get("idx"))
+        n = peel(n.kids[0])
+    if n is loop_node:
+        return path
+    return None
